@@ -2045,6 +2045,45 @@ REFLEXIVE_FOLD = {"walk_lt": "FALSE", "walk_le": "TRUE", "walk_equals": "TRUE", 
 
 
 def c11(idx: Index, rep: Report, tier: str) -> None:
+    # a handler of the simplifier is given the node and the *simplified* children: whatever depends on the children
+    # (a rebuilt node, a lookup key, a comparison) is built from `args`. The un-simplified node itself may be asked for
+    # what simplification cannot change (its fluent, variables, payload, type), never used as a whole or for its
+    # children — `expression` as a key, `expression.args`, `expression.arg(i)` denote the node before simplification
+    rule7 = "C11.7 T1 results-are-built-from-the-simplified-children"
+    simp = idx.cls("model.walkers.simplifier.Simplifier")
+    n7 = 0
+    for hname, h in sorted(simp.methods.items()):
+        if not hname.startswith("walk_") or hname == "walk_identity":
+            continue
+        params = h.params()
+        if len(params) < 3:
+            continue
+        node_param = params[1]
+        n7 += 1
+        parents = {}
+        for nn in ast.walk(h.node):
+            for ch in ast.iter_child_nodes(nn):
+                parents[ch] = nn
+        offending = []
+        for nn in ast.walk(h.node):
+            if isinstance(nn, ast.Name) and nn.id == node_param and isinstance(nn.ctx, ast.Load):
+                par = parents.get(nn)
+                if isinstance(par, ast.Attribute) and par.value is nn:
+                    if par.attr in ("args", "arg"):
+                        offending.append(par)
+                    continue
+                if isinstance(par, ast.Call) and call_name(par) in ("isinstance", "str", "repr", "type") :
+                    continue
+                if isinstance(par, (ast.JoinedStr, ast.FormattedValue)):
+                    continue
+                offending.append(nn)
+        ok = not offending
+        st = offending[0] if offending else None
+        while st is not None and not isinstance(st, ast.stmt):
+            st = parents.get(st)
+        rep.check(ok, rule7, f"{hname} does not use the un-simplified node for what its children decide", h.loc(st) if st is not None else h.loc(), construct=f"{hname}: " + ("only attributes of the node that simplification keeps" if ok else f"`{norm(st)[:70]}`"), detail="" if ok else "the handler uses the node as it was before its children were simplified (as a lookup key, or through .args / .arg): when a child only becomes a constant by simplification the old node is not what the tables know, the lookup falls back to a default and the expression is rewritten to another value", function=h.qualname)
+    rep.count("simplifier_handlers", n7)
+    rep.require_min(rule7, "simplifier_handlers", 20)
     from .extra2 import guard_atoms
 
     sim = idx.cls("model.walkers.simplifier.Simplifier")
@@ -2673,7 +2712,83 @@ def c24(idx: Index, rep: Report, tier: str) -> None:
 
 
 # ------------------------------------------------------------------------------------ C22 / C23 (round 5)
+def clone_copies_unconditional(idx: Index, rep: Report, rule: str) -> None:
+    """A field is copied to the clone whatever the *other* fields of the original contain: an assignment
+    `new.f = …self.f…` in a clone method may be guarded by a test on `self.f` itself (None / emptiness of the very
+    thing copied — the constructor's default is then right), never by a test that reads only other state."""
+    n = 0
+    for f in idx.all_funcs():
+        if not f.module.name.startswith("unified_planning.model") or f.name not in ("clone", "_clone_to"):
+            continue
+        stores = [a for a in walk_no_nested(f.node) if isinstance(a, ast.Assign) and len(a.targets) == 1 and isinstance(a.targets[0], ast.Attribute) and isinstance(a.targets[0].value, ast.Name) and a.targets[0].value.id != "self" and any(isinstance(x, ast.Attribute) and norm(x.value) == "self" for x in ast.walk(a.value))]
+        if not stores:
+            continue
+        cfg = cfg_of(f)
+        for a in stores:
+            nds = cfg.node_containing(a)
+            if not nds:
+                continue
+            n += 1
+            fld = a.targets[0].attr
+            src_fields = {x.attr for x in ast.walk(a.value) if isinstance(x, ast.Attribute) and norm(x.value) == "self"} | {fld}
+            foreign = []
+            for t, o in guards_dominating(cfg, nds[0]):
+                attrs = {x.attr for x in ast.walk(t.ast) if isinstance(x, ast.Attribute) and norm(x.value) == "self"}
+                loop_or_type = any(isinstance(c, ast.Call) and call_name(c) in ("isinstance", "hasattr") for c in ast.walk(t.ast))
+                if attrs and not (attrs & src_fields) and not loop_or_type:
+                    foreign.append(t)
+            rep.check(not foreign, rule, f"{f.short}: `{fld}` is copied whatever the other fields contain", f.loc(a), construct=f"{norm(a)[:60]}" + ("" if not foreign else f" only if `{norm(foreign[0].ast)[:50]}`"), detail="" if not foreign else f"the copy of `{fld}` is skipped depending on another field: an original whose `{fld}` is set while that other field is empty yields a clone without it — equal at first, different after the same later operation on both", function=f.qualname)
+    rep.count("clone_field_copies", n)
+    rep.require_min(rule, "clone_field_copies", 40)
+
+
+def stored_keys_have_stable_hashes(idx: Index, rep: Report, rule: str) -> None:
+    """A model object that is stored as a dictionary key inside another model object (the actions of
+    MinimizeActionCosts.costs) must hash the same for as long as it is stored: its `__hash__` may not read a field
+    that one of its own public methods changes. Otherwise changing the key object after it was stored leaves the
+    table with an entry nobody can look up: `costs == clone.costs` is false and `get_action_cost` answers with the
+    default."""
+    from ..rules2 import _field_writes
+
+    n = 0
+    for holder_q, field in (("model.metrics.MinimizeActionCosts", "_costs"),):
+        holder = idx.cls(holder_q)
+        init = holder.methods["__init__"]
+        ann = [a for a in ast.walk(init.node) if isinstance(a, ast.AnnAssign) and norm(a.target) == f"self.{field}"]
+        key_txt = norm(ann[0].annotation) if ann else ""
+        if "Action" not in key_txt:
+            raise AnalysisError(f"{rule}: {holder_q}.{field} is no longer declared as a table keyed by Action")
+        base = idx.cls("model.action.Action")
+        for ci in [base] + idx.subclasses(base):
+            h = ci.methods.get("__hash__")
+            if h is None:
+                continue
+            n += 1
+            hashed = {x.attr for x in ast.walk(h.node) if isinstance(x, ast.Attribute) and norm(x.value) == "self"}
+            # hashes delegated to a mixin: `Mixin.__hash__(self)`
+            for c in ast.walk(h.node):
+                if isinstance(c, ast.Call) and isinstance(c.func, ast.Attribute) and c.func.attr == "__hash__" and c.args and norm(c.args[0]) == "self":
+                    mix = idx.resolve_dotted(h.module, norm(c.func.value))
+                    mh = getattr(mix, "methods", {}).get("__hash__") if mix is not None else None
+                    if mh is not None:
+                        hashed |= {x.attr for x in ast.walk(mh.node) if isinstance(x, ast.Attribute) and norm(x.value) == "self"}
+            mutated = {}
+            for cj in ci.mro:
+                for mname, mf in cj.methods.items():
+                    if mname.startswith("_") or mname in ("clone",):
+                        continue
+                    for fld in _field_writes(mf.node, "self"):
+                        mutated.setdefault(fld, mname)
+            unstable = sorted(hashed & set(mutated))
+            ok = not unstable
+            rep.check(ok, rule, f"{ci.name}.__hash__ reads nothing its own methods change", h.loc(), construct=f"{ci.name}: keys of {holder.name}.{field}; __hash__ reads " + ("only fields fixed at construction" if ok else f"{unstable[:4]} (changed by {sorted({mutated[u] for u in unstable})[:3]})"), detail="" if ok else f"an action that is modified after it became a key of {holder.name}.{field} hashes differently from the entry that holds it: the table compares unequal to any faithful copy (the clone of such a problem is not equal to the original) and the cost lookup misses", function=h.qualname)
+    rep.count("stored_key_classes", n)
+    rep.require_min(rule, "stored_key_classes", 2)
+
+
 def c22(idx: Index, rep: Report, tier: str) -> None:
+    clone_copies_unconditional(idx, rep, "C22.8 T2 clone-copies-are-unconditional")
+    stored_keys_have_stable_hashes(idx, rep, "C22.9 T9 stored-keys-have-stable-hashes")
     # (a) a field of the copy is taken from the same field of the original
     rule = "C22.6 T21 clone-copies-field-to-same-field"
     n = 0
